@@ -95,6 +95,10 @@ class SupportTrace:
                 chk.violation("trace:%s:%s" % (label, rec.get("what", "support")),
                               "recorded sign pattern violates the sign / support abstraction (%s) at bins %s" % (rec.get("what"), d["bins"][:5]),
                               {"record": {k: v for k, v in rec.items() if k not in ("inp", "dis", "en")}, "bins_f_j": d["bins"][:20]})
+            elif rec["kind"] in ("mask", "mono"):
+                clause = "missing inputs give missing outputs and nothing else is missing" if rec["kind"] == "mask" else "the outputs increase with the inputs"
+                chk.violation("trace:%s:%s:%s" % (label, rec["kind"], rec.get("what", "")),
+                              "recorded %s violates: %s (%s)" % (rec.get("what", rec["kind"]), clause, d.get("clauses")), {"record": rec})
             else:
                 chk.violation("trace:%s:root:%s" % (label, rec.get("what", "")),
                               "returned root is not in the cell of the single sign change (cell %s, got %s) [%s]" % (d["cell"], rec["res"], rec.get("what")),
